@@ -283,3 +283,31 @@ impl Interpreter {
         self.rng = Rng::new(seed);
     }
 }
+
+#[cfg(feature = "verif-hooks")]
+impl Interpreter {
+    /// Read-only snapshot of the interpreter's internal state.
+    pub fn verif_snapshot(&self) -> crate::verif_hooks::Snapshot {
+        use crate::verif_hooks::{value_kind_and_text, Snapshot};
+        let mut snapshot = Snapshot::default();
+        snapshot.state = self.state;
+        snapshot.pending_input = self.input.clone();
+        snapshot.queued_outputs = self.output.len();
+        snapshot.rng_state = self.rng.verif_state();
+        snapshot.tracing = self.enable_tracing;
+        snapshot.warnings = self.enable_warnings;
+        snapshot.string_pool_bytes = self.string_manager.total_bytes();
+        snapshot.variables = self
+            .variables
+            .verif_entries()
+            .into_iter()
+            .map(|(name, value)| {
+                let (kind, text) = value_kind_and_text(&value);
+                (name, kind, text)
+            })
+            .collect();
+        snapshot.arrays = self.arrays.verif_entries();
+        self.program.verif_fill_snapshot(&mut snapshot);
+        snapshot
+    }
+}
